@@ -128,7 +128,7 @@ def random_scenario(rng):
         mode2=rng.choice(["signer", "signer", "signer"] + list(admin_ops.MODES)),
         keys=rng.choice(["t", "t", "t", "f"]), rng=rng, strict=rng.random() < 0.4,
         cli=rng.random() < 0.3, pre=rng.choice(admin_ops.PRE_KINDS[op]),
-        link=({"kind": rng.choice(admin_ops.LINK_KINDS), "how": rng.choice(admin_ops.ERR_HOWS + admin_ops.SUCCESS_LIKE),
+        link=({"kind": rng.choice(admin_ops.LINK_KINDS), "how": rng.choice(admin_ops.ERR_HOWS),
                "cls": rng.choice(["get_mode", "is_onboard", "echo", "seed_byte", "pin_byte", "wipe", "sgx_onboard",
                                   "unlock", "change_pin", "get_pubkey", "exit", "admin"]),
                "nth": rng.choice([0, 0, 0, 1, 2, 5])} if rng.random() < 0.15 else None),
